@@ -641,6 +641,15 @@ func (g *gen) genCase() reqCase {
 				b = append(b, act{K: "T", A: fmt.Sprintf("T%d", r.Intn(1000))})
 			}
 			b = append(b, act{K: "R", A: spell((k + 1) % n), C: r.Chance(30)})
+			if r.Chance(50) {
+				// the same member again under a spelling that is another request path (with / without the extension):
+				// a module that fails afterwards is known under several request keys
+				nx := names[(k+1)%n]
+				b = append(b, act{K: "R", A: []string{"./" + nx, "./" + nx + ".js"}[r.Intn(2)], C: r.Chance(30)})
+				if r.Chance(40) {
+					b = append(b, act{K: "R", A: []string{"./" + nx + ".js", d + "/" + nx}[r.Intn(2)], C: r.Chance(30)})
+				}
+			}
 			if k == thrower && pos == 1 {
 				b = append(b, act{K: "T", A: fmt.Sprintf("T%d", r.Intn(1000))})
 			}
@@ -656,6 +665,14 @@ func (g *gen) genCase() reqCase {
 		}
 		for i := 0; i < 2+r.Intn(4); i++ {
 			c.Calls = append(c.Calls, topCall{Script: path.Join(d, "m.js"), Spell: spell(r.Intn(n))})
+		}
+		if thrower < n {
+			// afterwards every spelling of the member that threw is tried again
+			for _, sp := range []string{"./" + names[thrower], "./" + names[thrower] + ".js", d + "/" + names[thrower]} {
+				if r.Chance(70) {
+					c.Calls = append(c.Calls, topCall{Script: path.Join(d, "m.js"), Spell: sp})
+				}
+			}
 		}
 	}
 	if g.prop == "C15" && r.Chance(30) {
